@@ -278,6 +278,58 @@ func zcMachine(t *rapid.T, prop string, entry int, raw []byte, bs gen.BitmapSpec
 				log("#%d=HeapXor(#%d,#%d)", z.id, x.id, y.id)
 			}
 		},
+		"AndAny": func(t *rapid.T) {
+			x := pick(t, "x")
+			n := rapid.IntRange(1, 3).Draw(t, "n")
+			args := make([]*roaring.Bitmap, n)
+			or := model.New()
+			names := ""
+			for i := range args {
+				z := pick(t, "arg")
+				args[i] = z.b
+				names += fmt.Sprintf("#%d,", z.id)
+				or = model.Or(or, z.m)
+			}
+			log("#%d.AndAny(%s)", x.id, names)
+			x.b.AndAny(args...)
+			x.m = model.And(x.m, or)
+			if x.id == 0 && !detached {
+				mutatedAliased = true
+			}
+		},
+		"reloadIntoUsed": func(t *rapid.T) {
+			// the caller's bytes loaded once more, this time into a bitmap that has been used before
+			// (its tables are re-sliced, not re-made)
+			if detached {
+				t.Skip("buffer gone")
+			}
+			r := roaring.New()
+			n := len(bs.Chunks) + rapid.IntRange(0, 3).Draw(t, "extra")
+			for k := 0; k < n; k++ {
+				r.Add(uint32(k)<<16 | 5)
+			}
+			how := rapid.IntRange(0, 2).Draw(t, "how")
+			switch how {
+			case 1:
+				r.Clear()
+			case 2:
+				r.SetCopyOnWrite(true)
+			}
+			var err error
+			switch entry {
+			case eFromBuffer:
+				_, err = r.FromBuffer(g.Data)
+			case eFromUnsafeBytes:
+				_, err = r.FromUnsafeBytes(g.Data)
+			default:
+				err = r.FrozenView(g.Data)
+			}
+			if err != nil {
+				fail("%s of the caller's (valid, unchanged) bytes into a previously used bitmap: %v", c10Entries[entry], err)
+			}
+			z := add(r, bs.Set())
+			log("#%d=%s(the same bytes) into a bitmap that held %d chunks (prep %d)", z.id, c10Entries[entry], n, how)
+		},
 		"parallel": func(t *rapid.T) {
 			if readOnly || detached {
 				t.Skip("parallel aggregates only over a writable, still mapped buffer")
@@ -313,6 +365,22 @@ func zcMachine(t *rapid.T, prop string, entry int, raw []byte, bs gen.BitmapSpec
 		"ordinary": func(t *rapid.T) {
 			// an ordinary bitmap on the view's keys, to be used as operand
 			os, rel := gen.Related(t, "o", bs, gen.KindsValid)
+			if len(bs.Chunks) > 0 && rapid.IntRange(0, 4).Draw(t, "full") == 3 {
+				// completely full chunks (single runs 0..65535) on some of the view's keys
+				fm := model.New()
+				for ci, c := range bs.Chunks {
+					if ci < 3 && (ci == 0 || rapid.Bool().Draw(t, "fullAlso")) {
+						fm.AddRange(uint64(c.Key)<<16, uint64(c.Key)<<16+65535)
+					}
+				}
+				ol, err := live.Make(gen.FromSet(t, "full", fm, gen.KindsAnyLegal), live.Built)
+				if err != nil {
+					t.Fatalf("harness: %v", err)
+				}
+				z := add(ol.B, ol.Model)
+				log("#%d=ordinary(full chunks on the view's keys)", z.id)
+				return
+			}
 			if rapid.IntRange(0, 3).Draw(t, "dense") == 0 {
 				// a privately owned bitmap container on every key of the view
 				dm := model.New()
